@@ -76,6 +76,13 @@ def jobs(tier, seed):
         js.append({'harness': 'sp', 'weight': 40, 'opts': {'max_paths': 20000},
                    'cfg': {'kind': 'SP', 'rate': 8, 'table': t, 'flows': [0, 1, 0, 1, 1, 0, 0, 1], 'sorts': 'int',
                            'burst': [0, 1, 1, 1, 0, 1, 1, 1], 'smax': 2}})
+    if tier != 'quick':
+        # six packets, fully symbolic gaps: a sample of flow patterns per seed
+        pats6 = flow_patterns(6, 2, tier, rng)
+        rng.shuffle(pats6)
+        for pat in pats6[:6]:
+            js.append({'harness': 'sp', 'weight': 200, 'opts': {'max_paths': 30000},
+                       'cfg': {'kind': 'SP', 'rate': 8, 'table': tables[0], 'flows': pat, 'sorts': 'int', 'smax': 3}})
     # three priority levels
     for pat in ([0, 1, 2, 2], [2, 1, 0, 1]) if tier == 'quick' else ([0, 1, 2, 2, 1], [2, 1, 0, 1, 0], [1, 1, 2, 0, 2]):
         js.append({'harness': 'sp', 'weight': 15,
@@ -92,7 +99,7 @@ META = {
     'required_labels': ['c13.strict-priority', 'c13.work-conserving-rate-exact'],
     'required_covers': ['nontrivial', 'burst-mixed-priorities'],
     'bounds': {'quick': 'n=4 packets, 2-3 flows, priority tables {1,2},{2,1},{1,1},{1,2,3}; sizes, gaps unbounded',
-               'thorough': 'n=5, all 2-flow patterns'},
+               'thorough': 'n=5, all 2-flow patterns; six seed-chosen patterns of n=6 (sizes <= 3)'},
     'assumptions': ['a packet arriving at exactly the instant of a service start, in a later kernel step than the packet '
                     'being started, is not counted as waiting (the statement does not order them)'],
     'stubs': [],
@@ -103,5 +110,5 @@ MANIFEST = {
     'level_text': 'Bounded model checking by symbolic execution of the real SP scheduler: for every pair (started packet, '
                   'higher-priority packet) the solver proves the latter was not waiting at the start instant, for all '
                   'sizes and gaps of each bounded workload.',
-    'level_note': 'Trusted: z3, symx proxies (validated by concrete witness replay); workloads <= 5 packets; priorities concrete.',
+    'level_note': 'Trusted: z3, symx proxies (validated by concrete witness replay); workloads <= 6 packets (8 in two bursts); priorities concrete.',
 }
